@@ -22,7 +22,7 @@ template<int N, class T> static LM<N> toL(glm::mat<N, N, T> const& m) { LM<N> r;
 template<int N> static LD fro(LM<N> const& m) { LD s = 0; for (int i = 0; i < N; ++i) for (int j = 0; j < N; ++j) s += m.a[i][j] * m.a[i][j]; return sqrtl(s); }
 template<int N, class T> static std::string ms(glm::mat<N, N, T> const& m) { std::string s = "["; for (int c = 0; c < N; ++c) { s += "("; for (int r = 0; r < N; ++r) { s += str((double)m[c][r]); if (r + 1 < N) s += ","; } s += ")"; } return s + "]"; }
 template<class T> static const char* tn(); template<> const char* tn<float>() { return "f32"; } template<> const char* tn<double>() { return "f64"; }
-template<int N, class T> static LD maxdiff_I(glm::mat<N, N, T> const& P) { LD d = 0; for (int c = 0; c < N; ++c) for (int r = 0; r < N; ++r) d = std::max(d, fabsl((LD)P[c][r] - (c == r ? 1 : 0))); return d; }
+template<int N, class T> static LD maxdiff_I(glm::mat<N, N, T> const& P) { LD d = 0; for (int c = 0; c < N; ++c) for (int r = 0; r < N; ++r) d = nmax(d, fabsl((LD)P[c][r] - (c == r ? 1 : 0))); return d; }
 
 template<int N, class T> static void check(glm::mat<N, N, T> const& M, LD kappa, bool exact, std::string const& cls) {
 	std::string sfx = "_" + std::to_string(N) + "_" + tn<T>(); LD eps = std::numeric_limits<T>::epsilon(); LD tol = exact ? 0 : 64 * eps * kappa;
@@ -36,21 +36,21 @@ template<int N, class T> static void check(glm::mat<N, N, T> const& M, LD kappa,
 	LD dt = glm::determinant(glm::transpose(M)); if (!(fabsl(dt - dref) <= (exact ? 0 : 64 * eps * scale))) fail("det_tr" + sfx, cls, ms(M), str((double)dref), str((double)dt));
 	// inverseTranspose = transpose(inverse)
 	count("invtr" + sfx); auto IT = glm::inverseTranspose(M); LD e = 0, nI = fro(Li);
-	for (int c = 0; c < N; ++c) for (int r = 0; r < N; ++r) e = std::max(e, fabsl((LD)IT[c][r] - Li.a[r][c]));
+	for (int c = 0; c < N; ++c) for (int r = 0; r < N; ++r) e = nmax(e, fabsl((LD)IT[c][r] - Li.a[r][c]));
 	if (!(e <= (exact ? 0 : 64 * eps * kappa * nI))) fail("invtr" + sfx, cls, ms(M), "transpose(inverse(M))", "max abs diff " + str((double)e));
 	// adjugate * M = det * I
-	count("adj" + sfx); auto A = glm::adjugate(M) * M; e = 0; for (int c = 0; c < N; ++c) for (int r = 0; r < N; ++r) e = std::max(e, fabsl((LD)A[c][r] - (c == r ? dref : 0)));
+	count("adj" + sfx); auto A = glm::adjugate(M) * M; e = 0; for (int c = 0; c < N; ++c) for (int r = 0; r < N; ++r) e = nmax(e, fabsl((LD)A[c][r] - (c == r ? dref : 0)));
 	if (!(e <= (exact ? 0 : 256 * eps * scale * N))) fail("adj" + sfx, cls, ms(M), "det*I", "max abs diff " + str((double)e));
 	// operator/ : (M / M) = I ; (M*v)/M ... v / M = v * inverse(M)
 	count("div" + sfx); LD e3 = maxdiff_I(M / M); if (!(e3 <= tol)) fail("div_mm" + sfx, cls, ms(M), "M/M = I", str((double)e3));
 	// A / M = A * inverse(M) and A /= M likewise, with a second matrix A that does not commute with M (a shear of the identity plus M's transpose)
 	{ glm::mat<N, N, T> A = glm::transpose(M); for (int c = 0; c < N; ++c) for (int r = 0; r < N; ++r) A[c][r] += (T)((c + 2 * r) % 3); auto Q = A / M; auto Qc = A; Qc /= M; LM<N> LA = toL(A); LD ed = 0, ec = 0, na = fro(LA) * fro(Li);
-	  for (int c = 0; c < N; ++c) for (int r = 0; r < N; ++r) { LD w = 0; for (int k = 0; k < N; ++k) w += LA.a[k][r] * Li.a[c][k]; ed = std::max(ed, fabsl((LD)Q[c][r] - w)); ec = std::max(ec, fabsl((LD)Qc[c][r] - w)); }
+	  for (int c = 0; c < N; ++c) for (int r = 0; r < N; ++r) { LD w = 0; for (int k = 0; k < N; ++k) w += LA.a[k][r] * Li.a[c][k]; ed = nmax(ed, fabsl((LD)Q[c][r] - w)); ec = nmax(ec, fabsl((LD)Qc[c][r] - w)); }
 	  LD td = exact ? 0 : 64 * eps * kappa * (1 + na); if (!(ed <= td) || !(ec <= td)) fail("div_mm" + sfx, cls + ":A / M with A != M", ms(M), "A * inverse(M)", "max abs diff " + str((double)ed) + " (operator/) " + str((double)ec) + " (operator/=)"); }
 	// gtx/matrix_factorisation: M = Q R with orthonormal columns of Q and upper-triangular R (and M = R Q with orthonormal rows); gtx/matrix_query predicates
-	if (!exact) { glm::mat<N, N, T> Q, R; glm::qr_decompose(M, Q, R); LD e1q = 0, e2q = 0, e3q = 0; auto QR = Q * R; for (int c = 0; c < N; ++c) for (int r = 0; r < N; ++r) { e1q = std::max(e1q, fabsl((LD)QR[c][r] - (LD)M[c][r])); if (r > c) e3q = std::max(e3q, fabsl((LD)R[c][r])); LD d = 0; for (int k = 0; k < N; ++k) d += (LD)Q[c][k] * Q[r][k]; e2q = std::max(e2q, fabsl(d - (c == r))); }
+	if (!exact) { glm::mat<N, N, T> Q, R; glm::qr_decompose(M, Q, R); LD e1q = 0, e2q = 0, e3q = 0; auto QR = Q * R; for (int c = 0; c < N; ++c) for (int r = 0; r < N; ++r) { e1q = nmax(e1q, fabsl((LD)QR[c][r] - (LD)M[c][r])); if (r > c) e3q = nmax(e3q, fabsl((LD)R[c][r])); LD d = 0; for (int k = 0; k < N; ++k) d += (LD)Q[c][k] * Q[r][k]; e2q = nmax(e2q, fabsl(d - (c == r))); }
 	  count("qr" + sfx); LD tq = 256 * eps * kappa * (1 + fro(L)); if (!(e1q <= tq && e2q <= tq && e3q <= tq)) fail("qr_decompose" + sfx, cls, ms(M), "Q R = M, Q^T Q = I, R upper triangular", "diffs " + str((double)e1q) + " " + str((double)e2q) + " " + str((double)e3q));
-	  glm::mat<N, N, T> Q2, R2; glm::rq_decompose(M, R2, Q2); LD f1 = 0, f2 = 0; auto RQ = R2 * Q2; for (int c = 0; c < N; ++c) for (int r = 0; r < N; ++r) { f1 = std::max(f1, fabsl((LD)RQ[c][r] - (LD)M[c][r])); LD d = 0; for (int k = 0; k < N; ++k) d += (LD)Q2[k][c] * Q2[k][r]; f2 = std::max(f2, fabsl(d - (c == r))); }
+	  glm::mat<N, N, T> Q2, R2; glm::rq_decompose(M, R2, Q2); LD f1 = 0, f2 = 0; auto RQ = R2 * Q2; for (int c = 0; c < N; ++c) for (int r = 0; r < N; ++r) { f1 = nmax(f1, fabsl((LD)RQ[c][r] - (LD)M[c][r])); LD d = 0; for (int k = 0; k < N; ++k) d += (LD)Q2[k][c] * Q2[k][r]; f2 = nmax(f2, fabsl(d - (c == r))); }
 	  if (!(f1 <= tq && f2 <= tq)) fail("rq_decompose" + sfx, cls, ms(M), "R Q = M, Q Q^T = I", "diffs " + str((double)f1) + " " + str((double)f2)); }
 	{ count("matrix_query" + sfx); glm::mat<N, N, T> I((T)1), Z((T)0), P = I; P[N - 1][0] = (T)0.25; bool ok = glm::isIdentity(I, (T)1e-6) && !glm::isIdentity(P, (T)1e-3) && glm::isNull(Z, (T)1e-6) && !glm::isNull(P, (T)1e-3) && glm::isNormalized(I, (T)1e-6) && !glm::isNormalized(I * (T)2, (T)1e-3) && glm::isOrthogonal(I, (T)1e-6) && !glm::isOrthogonal(P + glm::transpose(P), (T)1e-3);
 	  if (!ok) fail("matrix_query" + sfx, "predicates", "identity / null / one entry changed", "isIdentity, isNull, isNormalized, isOrthogonal on the obvious cases", "differs"); }
@@ -61,7 +61,7 @@ template<int N, class T> static void check_affine(glm::mat<N, N, T> M, LD kappa,
 	for (int c = 0; c < N; ++c) M[c][N - 1] = (c == N - 1) ? (T)1 : (T)0;
 	LM<N> L = toL(M), Li; if (!linv(L, Li)) return; if (exact) { LD dd; exact_ref(L, dd, Li); if (fabsl(dd) != 1) return; } LD k2 = fro(L) * fro(Li); if (!exact && k2 > kappa) return;
 	std::string sfx = "_" + std::to_string(N) + "_" + tn<T>(); count("affinv" + sfx);
-	auto A = glm::affineInverse(M); LD e = 0; for (int c = 0; c < N; ++c) for (int r = 0; r < N; ++r) e = std::max(e, fabsl((LD)A[c][r] - Li.a[c][r]));
+	auto A = glm::affineInverse(M); LD e = 0; for (int c = 0; c < N; ++c) for (int r = 0; r < N; ++r) e = nmax(e, fabsl((LD)A[c][r] - Li.a[c][r]));
 	LD tol = exact ? 0 : 64 * std::numeric_limits<T>::epsilon() * k2 * fro(Li);
 	if (!(e <= tol)) fail("affinv" + sfx, cls, ms(M), "inverse(M)", "max abs diff " + str((double)e));
 }
